@@ -228,6 +228,10 @@ class Heap:
                             cv[(c, nm)] = val
                         elif isinstance(val, list) and all(isinstance(x, (str, int, bytes)) for x in val):
                             cv[(c, nm)] = self.new_list(list(val), '@classvar_%s_%s' % (c, nm))
+                        elif isinstance(val, dict) and all(isinstance(x, (str, int, bytes, tuple, type(None))) for x in list(val) + list(val.values())):
+                            # a class-level dictionary of constants: ONE object for the class and all its instances
+                            cv[(c, nm)] = self.new_dict('@classvar_%s_%s' % (c, nm))
+                            self.objs[cv[(c, nm)].name]['entries'].extend(val.items())
                         else:
                             continue
                 return cv[(c, nm)]
